@@ -363,6 +363,11 @@ def pattern_options():
         out.append(("regex_exclude", {"exclude": [p], "regex": True}, ""))
     out.append(("regex_name", {"name": ["[fx].*"], "regex": True}, ""))
     out.append(("regex_name", {"name": ["x|.*\\.txt"], "regex": True}, ""))
+    # regular expressions with --ignore-case
+    out.append(("regex_path_ic", {"path": [".*/X"], "regex": True, "ignore_case": True}, ""))
+    out.append(("regex_path_ic", {"path": [".*/D1/.*\\.TXT"], "regex": True, "ignore_case": True}, ""))
+    out.append(("regex_exclude_ic", {"exclude": [".*/D1/.*"], "regex": True, "ignore_case": True}, ""))
+    out.append(("regex_name_ic", {"name": ["[FX].*"], "regex": True, "ignore_case": True}, ""))
     out.append(("two_names", {"name": ["x", "*.txt"]}, ""))
     out.append(("path_and_exclude", {"path": ["r/**"], "exclude": ["**/x"]}, ""))
     return out
